@@ -117,14 +117,13 @@ async fn handle_connection(
 
         buffer.extend_from_slice(&temp_buf[..n]);
 
-        // Check buffer size limit
-        if buffer.len() > MAX_BUFFER_SIZE {
-            error!("Redis connection {} exceeded buffer size limit", addr);
-            return Err(anyhow::anyhow!("Buffer size limit exceeded"));
-        }
-
         // Try to parse RESP values
         while let Some((value, consumed)) = parser.parse(&buffer)? {
+            // A single command larger than the buffer limit is refused
+            if consumed > MAX_BUFFER_SIZE {
+                error!("Redis connection {} exceeded buffer size limit", addr);
+                return Err(anyhow::anyhow!("Buffer size limit exceeded"));
+            }
             buffer.drain(..consumed);
 
             // Check if this is a QUIT command before processing
@@ -144,6 +143,12 @@ async fn handle_connection(
                 debug!("Closing Redis connection for {} after QUIT", addr);
                 return Ok(());
             }
+        }
+
+        // Check buffer size limit: what is left is one incomplete command
+        if buffer.len() > MAX_BUFFER_SIZE {
+            error!("Redis connection {} exceeded buffer size limit", addr);
+            return Err(anyhow::anyhow!("Buffer size limit exceeded"));
         }
     }
 }
